@@ -1,4 +1,5 @@
 pub mod c12;
+pub mod streams;
 pub mod c13;
 pub mod c14;
 pub mod c15;
